@@ -1,0 +1,2 @@
+//! BGP session-processor hooks: see `units::bgp_tcp_in::router_handler::verif_hooks`.
+pub use crate::units::bgp_tcp_in::router_handler::verif_hooks::*;
